@@ -69,6 +69,19 @@ def gen(tier, seed, boost=False):
                 continue
             for algo in ALGOS:
                 yield dict(stream='exhaustive-large', rows=rows, algo=algo, sub_seed=0)
+    # dynamically constructed lattices: built by add() in a seeded order / a concept removed and added back
+    rd = random.Random(seed * 7919 + 33)
+    tabs = [rows for rows in G.tables_upto(3, 3) if G.is_mixed(rows)]
+    rd.shuffle(tabs)
+    tabs = tabs[:150 if tier == 'quick' else 450] + [G.random_table(rd, 6, 5, nmin=3, mmin=3) for _ in range(120 if tier == 'quick' else 1500)]
+    for rows in tabs:
+        for how in ('build', 'readd', 'del', 'del'):
+            yield dict(stream='dynamic', rows=rows, algo='CbO', sub_seed=rd.randrange(1 << 30), dyn=[how, rd.randrange(1 << 30)])
+    # larger, mostly non-graded lattices built concept by concept in several orders
+    for _ in range(150 if tier == 'quick' else 2000):
+        rows = G.random_table(rd, 7, 6, nmin=5, mmin=4)
+        for _k in range(3):
+            yield dict(stream='dynamic-large', rows=rows, algo='CbO', sub_seed=rd.randrange(1 << 30), dyn=['build', rd.randrange(1 << 30)])
     nrand = 150 if tier == 'quick' else 3000
     if boost:
         nrand *= 3
@@ -145,6 +158,44 @@ def _impl(c):
     K = make_context(c['rows'], 'BinTableBitarray')
     try:
         L = ConceptLattice.from_context(K, algo=c['algo'])
+        dyn = c.get('dyn')
+        if dyn:
+            # lattices that are not the direct product of from_context: built concept by concept, or with a concept
+            # removed and added back after some order queries (lazily filled caches)
+            r = random.Random(dyn[1])
+            cs = list(L)
+            if dyn[0] == 'build' and len(cs) >= 2:
+                inner = cs[1:-1]
+                r.shuffle(inner)
+                L = ConceptLattice([cs[0], cs[-1]])
+                for x in inner:
+                    L.add(x)
+            elif dyn[0] == 'del' and len(cs) >= 3:
+                # a pruned lattice: some order queries (lazily filled caches), then concepts deleted
+                for _ in range(r.randint(0, 5)):
+                    i = r.randrange(len(L))
+                    r.choice([L.children, L.parents, L.descendants, L.ancestors])(i)
+                for _ in range(r.randint(1, 2)):
+                    inner_i = [i for i in range(len(L)) if i not in (L.top, L.bottom)]
+                    if not inner_i:
+                        break
+                    if r.random() < 0.5:
+                        del L[r.choice(inner_i)]
+                    else:
+                        L.remove(L[r.choice(inner_i)])
+                    for _k in range(r.randint(0, 2)):
+                        r.choice([L.children, L.parents])(r.randrange(len(L)))
+            elif dyn[0] == 'readd' and len(cs) >= 3:
+                for _ in range(r.randint(0, 4)):
+                    i = r.randrange(len(L))
+                    r.choice([L.children, L.parents, L.descendants, L.ancestors])(i)
+                for _ in range(r.randint(1, 2)):
+                    inner_i = [i for i in range(len(L)) if i not in (L.top, L.bottom)]
+                    x = L[r.choice(inner_i)]
+                    L.remove(x)
+                    for _k in range(r.randint(0, 2)):
+                        r.choice([L.children, L.parents])(r.randrange(len(L)))
+                    L.add(x)
         n = len(L)
         rng_ = range(n)
         out = dict(
@@ -180,7 +231,7 @@ def _impl(c):
             if len(S) == 2:
                 alias_ok = alias_ok and _opt(L.infimum(list(S))) == mt and _opt(L.supremum(list(S))) == jn
         out['meets'], out['joins'], out['alias_ok'] = meets, joins, alias_ok
-        if c['algo'] is None:
+        if c['algo'] is None and not dyn:
             R = cca.lindig_algorithm(K)
             out['lindig'] = dict(
                 cs0=[[ints(x.extent_i), ints(x.intent_i)] for x in R],
@@ -211,13 +262,28 @@ def judge(c, io, rep):
                     detail=f'from_context/query raised {io["err"]}: {io.get("msg")}')
     r = rep[0]
     P = lambda what, detail: dict(ok=False, kind='property', what=what, detail=detail)
+    pruned = bool(c.get('dyn')) and c['dyn'][0] == 'del'
+    if pruned:
+        # a sub-list of the concepts (top and bottom kept): the order relations are still those of extent inclusion
+        # within the list; meet/join/chains/listing are not judged here
+        for f, s_, name in (('desc', 'sdesc', 'descendants'), ('anc', 'sanc', 'ancestors'),
+                            ('children', 'lower', 'children'), ('parents', 'upper', 'parents')):
+            if io[f] != r[s_]:
+                i, x, y = _first_diff(io[f], r[s_])
+                return P(name, f'after deletions {name}({i}) = {x}, extent inclusion within the list gives {y}; concepts {io["cs"]}')
+        if [io['top']] != r['stop'] or [io['bottom']] != r['sbottom']:
+            return P('top', f'after deletions top/bottom = {io["top"]}/{io["bottom"]}, expected {r["stop"]}/{r["sbottom"]}')
+        if not io['dicts_same'] or not io['elems_same']:
+            return P('dicts', 'dict views differ from the per-element queries')
+        return dict(ok=True)
     if not r['hyp']:
         return P('concepts', f'the constructed lattice does not list every concept of the table exactly once: {io["cs"]}')
     # the theorems say model = spec under the hypothesis: a difference is a harness/model error
     for m, s in (('desc', 'sdesc'), ('anc', 'sanc'), ('children', 'lower'), ('parents', 'upper')):
         if r[m] != r[s]:
             return dict(ok=False, kind='harness', detail=f'model {m} {r[m]} != spec {r[s]}')
-    if [r['top']] != r['stop'] or [r['bottom']] != r['sbottom'] or not r['orderIndep'] or not r['modelChainsOk']:
+    dyn = bool(c.get('dyn'))
+    if [r['top']] != r['stop'] or [r['bottom']] != r['sbottom'] or not r['orderIndep'] or (not r['modelChainsOk'] and not dyn):
         return dict(ok=False, kind='harness', detail=f'model top/bottom/order-independence/chains inconsistent with spec: {r["top"]} '
                                                       f'{r["stop"]} {r["bottom"]} {r["sbottom"]} {r["orderIndep"]} {r["modelChainsOk"]}')
     n = len(io['cs'])
@@ -237,7 +303,7 @@ def judge(c, io, rep):
         return P('top', f'top = {io["top"]} but the concept with all objects is {r["stop"]}')
     if [io['bottom']] != r['sbottom']:
         return P('bottom', f'bottom = {io["bottom"]} but the concept with extent (all attributes)\' is {r["sbottom"]}')
-    if not r['listingOk']:
+    if not r['listingOk'] and not dyn:
         return P('listing', f'listing not by non-increasing support with top first and bottom last: {io["cs"]}')
     for k, S in enumerate(subs):
         sm = r['smeets'][k] if S else r['sbottom']
@@ -254,6 +320,8 @@ def judge(c, io, rep):
         return P('dicts', 'children_dict/parents_dict/descendants_dict/ancestors_dict or iteration differ from the per-element queries')
     # observables the property does not pin: correspondence with the model
     C = lambda what, detail: dict(ok=False, kind='correspondence', what=what, detail=detail)
+    if dyn:     # the listing order of an incrementally built lattice is the insertion order: nothing more is pinned
+        return dict(ok=True)
     if r['sorted'] != io['cs']:
         return C('sort', f'listing {io["cs"]} is not what sort_concepts (model) gives: {r["sorted"]}')
     if r['chains'] != io['chains']:
@@ -277,7 +345,7 @@ def nontrivial(c):
 
 
 def key(c):
-    return [c['rows'], c['algo']]
+    return [c['rows'], c['algo'], c.get('dyn')]
 
 
 def branch(c, io, rep):
